@@ -23,6 +23,8 @@ import Golib.Queue.Timed
 import Golib.Queue.Findings
 import Golib.Queue.Composite
 import Golib.Queue.Fixed
+import Golib.Queue.TimedMany
+import Golib.Queue.OverLinked
 import Golib.Conc.Callback
 import Golib.Conc.SeqSpec
 
@@ -485,6 +487,127 @@ theorem program_order (q0 : Q) (sched : List (Conc.Cond.Act Op)) (s : Conc.Cond.
       ((Conc.linOps s.log).filter (fun x => x.1 == t)).map (fun x => x.2.1) ++
         Conc.Cond.pendOf (Conc.Cond.absPh (s.ph t)) :=
   Queue.program_order q0 sched s h t
+
+/-! ### several timed gets on one queue at once (`Queue/TimedMany.lean`; driver line `TM`)
+
+  A history = operations of other threads (`other op`, linearized) and turns of the timed consumers'
+  polling loops (`poll i now`), in any order, with any clock readings; each consumer has its own deadline.
+  The poll is the repaired one (`poll() (v, taken)`: the code as it stands). -/
+
+/-- **a timed get returns empty-handed only after *its own* timeout**, whatever the other consumers of
+    the queue and the producers do: the call of consumer `j`, running at the start, has ended with
+    `timedOut t` ⇒ `t` is at or after `j`'s deadline, it ended in a turn of `j` itself, the queue was empty
+    in that turn and the call was still running until then -/
+theorem timed_gets_each_by_its_own_deadline (s : MSt) (es : List MEv) (j : Nat) (t : Int)
+    (h0 : s.res j = none) (h : (mrun s es).1.res j = some (.timedOut t)) :
+    ∃ d pre post, s.timeto j = some d ∧ d - t ≤ 0 ∧ es = pre ++ MEv.poll j t :: post ∧
+      (mrun s pre).1.q.items = [] ∧ (mrun s pre).1.res j = none :=
+  mrun_timedOut s es j t h0 h
+
+/-- nothing but a turn of its own loop ends a timed get: not another consumer reaching its deadline, not
+    an element that another consumer took, not a put, a refused put, a Clear (one event … -/
+theorem timed_get_not_ended_by_others (s : MSt) (e : MEv) (j : Nat) (h : ∀ now, e ≠ .poll j now) :
+    (mstep s e).1.res j = s.res j :=
+  mstep_frame s e j h
+
+/-- … and whole histories in which the consumer has no turn) -/
+theorem timed_get_not_ended_by_others_history (s : MSt) (es : List MEv) (j : Nat)
+    (h : ∀ now, MEv.poll j now ∉ es) : (mrun s es).1.res j = s.res j :=
+  mrun_frame s es j h
+
+/-- a timed get that came back with an element took the head of the queue in a turn of its own -/
+theorem timed_gets_got_the_head (s : MSt) (es : List MEv) (j : Nat) (x : Nat)
+    (h0 : s.res j = none) (h : (mrun s es).1.res j = some (.got x)) :
+    ∃ now pre post r, es = pre ++ MEv.poll j now :: post ∧ (mrun s pre).1.q.items = x :: r ∧
+      (mrun s pre).1.res j = none :=
+  mrun_got s es j x h0 h
+
+/-- an element taken in a turn goes to exactly that consumer: one `delivered` event, the head leaves the
+    queue, that consumer's call ends with it, every other consumer's call is untouched -/
+theorem timed_gets_deliver_to_exactly_one (s : MSt) (i : Nat) (now : Int) (x : Nat)
+    (h : Ev.delivered x ∈ (mstep s (.poll i now)).2) :
+    (mstep s (.poll i now)).2 = [.delivered x] ∧ (mstep s (.poll i now)).1.res i = some (.got x) ∧
+    s.res i = none ∧ (∃ r, s.q.items = x :: r ∧ (mstep s (.poll i now)).1.q.items = r) ∧
+    ∀ j, j ≠ i → (mstep s (.poll i now)).1.res j = s.res j :=
+  mstep_poll_delivers s i now x h
+
+/-- the queue content and the events of a history with any number of timed consumers are those of a
+    sequential history of the (repaired) queue model — the turns that found an element are its `GetNoWait`s —
+    hence FIFO as the exact list equation and conservation without exception hold for it -/
+theorem timed_gets_refine_sequential (s : MSt) (es : List MEv) :
+    ∃ ops : List Op, ops.length ≤ es.length ∧
+      (mrun s es).1.q = (runF s.q ops).1 ∧ (mrun s es).2 = (runF s.q ops).2.2 :=
+  mrun_sequential s es
+
+theorem timed_gets_fifo_and_conservation (s : MSt) (es : List MEv) :
+    s.q.items ++ acceptedOf (mrun s es).2 = leftOf (mrun s es).2 ++ (mrun s es).1.q.items ∧
+    (s.q.items ++ acceptedOf (mrun s es).2).Perm
+      (deliveredOf (mrun s es).2 ++ overflowedOf (mrun s es).2 ++ clearedOf (mrun s es).2 ++
+        (mrun s es).1.q.items) := by
+  obtain ⟨ops, _, hq, he⟩ := mrun_sequential s es
+  rw [hq, he]
+  exact ⟨runF_fifo s.q ops, conservationF s.q ops⟩
+
+/-- the two histories of the seeded change of round 7: deadlines 200 and 1500, no producer — the second
+    call is still running after the first timed out; two consumers and one element — the loser is still
+    running, and times out only at its own deadline -/
+example : ((mrun (MSt.start ⟨[], 10⟩ [200, 1500]) [.poll 0 66, .poll 1 500, .poll 0 201, .poll 1 834]).1.cs.map (·.res)) =
+    [some (.timedOut 201), none] := by decide
+example : ((mrun (MSt.start ⟨[], 10⟩ [1200, 1200]) [.poll 0 400, .poll 1 400, .other (.put 7), .poll 1 0, .poll 0 900,
+    .poll 0 1201]).1.cs.map (·.res)) = [some (.timedOut 1201), some (.got 7)] := by decide
+example : (MSt.start ⟨[], 10⟩ [200, 1500]).res 1 = none := by decide
+
+/-! ### the queue over the pointer-level doubly linked list (`Queue/OverLinked.lean`; driver line `QL`)
+
+  `stepL` is RequestQueue written the way the Go methods are — `Size()`, `Add`, `RemoveFirst`, `Clear` of
+  C13's CodeModel of util/list/LinkedList.go (nodes in a heap, first/last/prev/next pointers, a size
+  counter) — instead of on a plain list.  -/
+
+/-- one operation from any well-formed list: same return value, same events, well-formed list holding the
+    abstract content afterwards -/
+theorem queue_over_linked_list_step (ql : QL) (q : Q) (op : Op) (h : RefL ql q) :
+    (stepL ql op).2 = (stepF q op).2 ∧ RefL (stepL ql op).1 (stepF q op).1 :=
+  stepL_refines ql q op h
+
+/-- **every history** of `NewRequestQueue(cap)` over the linked list returns and reports what the abstract
+    queue does; the list stays well-formed and holds exactly the abstract content -/
+theorem queue_over_linked_list_refines (cap : Int) (ops : List Op) :
+    (runL (QL.new cap) ops).2 = (runF ⟨[], cap⟩ ops).2 ∧
+    RefL (runL (QL.new cap) ops).1 (runF ⟨[], cap⟩ ops).1 :=
+  runL_refines _ _ ops (RefL.new cap)
+
+/-- hence FIFO (exact list equation) and conservation for the queue over the linked list: the content
+    `items` is what the well-formed list holds at the end -/
+theorem fifo_and_conservation_over_linked_list (cap : Int) (ops : List Op) :
+    ∃ items ids, Lists.Linked.Rep (runL (QL.new cap) ops).1.list ids (items.map encE) ∧
+      acceptedOf (runL (QL.new cap) ops).2.2 = leftOf (runL (QL.new cap) ops).2.2 ++ items ∧
+      (acceptedOf (runL (QL.new cap) ops).2.2).Perm
+        (deliveredOf (runL (QL.new cap) ops).2.2 ++ overflowedOf (runL (QL.new cap) ops).2.2 ++
+          clearedOf (runL (QL.new cap) ops).2.2 ++ items) := by
+  obtain ⟨h1, _, ids, h2⟩ := runL_refines (QL.new cap) ⟨[], cap⟩ ops (RefL.new cap)
+  have e : (runL (QL.new cap) ops).2.2 = (runF ⟨[], cap⟩ ops).2.2 := by rw [h1]
+  refine ⟨_, ids, h2, ?_, ?_⟩
+  · rw [e]; simpa using runF_fifo ⟨[], cap⟩ ops
+  · rw [e]; simpa using conservationF ⟨[], cap⟩ ops
+
+example : (runL (QL.new 2) [.put 1, .put 2, .put 3, .putForce 4, .get, .getNoWait, .getTimeout 0]).2.1 =
+    [.bool true, .bool true, .bool false, .bool false, .val 2, .val 4, .val 0] := by decide
+
+/-- the capacity is changed by `SetCapacity` and by nothing else, and `GetCapacity` returns it -/
+theorem capacity_changed_only_by_setCapacity (q : Q) (op : Op) :
+    ((stepF q op).1.cap = match op with | .setCapacity c => c | _ => q.cap) ∧
+    (stepF q .getCapacity).2.1 = .int q.cap := by
+  refine ⟨?_, rfl⟩
+  rw [stepF_eq]
+  cases op <;> simp only [step] <;> (try split) <;> rfl
+
+/-- the double queue's observers (`Size1`, `Size2`, `GetCapacity1`, `GetCapacity2`, `Size`) change nothing, cause
+    no event and return the size / capacity of the list they name (`Size`: the sum, read from one state) -/
+theorem double_observers_are_pure (d : DQ) :
+    dstep d .size1 = (d, .int d.q1.size, []) ∧ dstep d .size2 = (d, .int d.q2.size, []) ∧
+    dstep d .getCapacity1 = (d, .int d.q1.cap, []) ∧ dstep d .getCapacity2 = (d, .int d.q2.cap, []) ∧
+    dstep d .size = (d, .int (d.q1.size + d.q2.size), []) :=
+  ⟨rfl, rfl, rfl, rfl, rfl⟩
 
 /-! ### non-vacuity -/
 
